@@ -79,6 +79,7 @@ def gen_cases(ctx, tier=None):
     n = 1500 if tier == "quick" else 15000
     add("documents", [docgen.structured(rng)[0] for _ in range(n)])
     add("chaotic", [docgen.chaotic(rng) for _ in range(n // 3)])
+    add("string_adversaries", docgen.string_documents(rng, None if tier != "quick" else 600))
     vals = [bengen.enc(bengen.rand_value(rng, 0, rng.choice([3, 5, 8]))) for _ in range(n)]
     add("values", vals)
     add("mutated", [bengen.mutate(rng, rng.choice(vals)) for _ in range(n)])
@@ -160,7 +161,7 @@ def correspondence(ctx):
     nontrivial = len(set(x for _, _, x in cases))
     return {
         "evaluations": evals, "distinct_nontrivial": nontrivial,
-        "rule": "numeric adversaries, well-formed documents with extreme numbers (piece length 0/1 with huge totals, sums above 2^64, string lengths near 2^64), generated documents/values and mutations, nesting depth 10..100000, long flat inputs; each in a child process, debug+release, %d ms limit, counting allocator; non-trivial = distinct input" % LIMIT_MS,
+        "rule": "numeric adversaries, well-formed documents with extreme numbers (piece length 0/1 with huge totals, sums above 2^64, string lengths near 2^64), generated documents/values and mutations, names and path components of awkward lengths/compositions (multi-byte characters straddling offsets 1..1000, refused and accepted, control/invisible characters, invalid UTF-8), nesting depth 10..100000, long flat inputs; each in a child process, debug+release, %d ms limit, counting allocator; non-trivial = distinct input" % LIMIT_MS,
         "samples": [{"case": k, "kind": kind, "input_head": repr(x[:80]), "len": len(x)} for k, kind, x in (cases[5], cases[200], cases[-3])],
         "distribution": {"kinds": dist, "outcomes": outcomes}, "disagreements": len(broken), "findings": findings, "broken": broken,
         "known_lines": sorted(known),
